@@ -1379,6 +1379,188 @@ fn f_c08_wind_down(drain: bool, may_have_late_frame: bool) {
     kani::cover!(true, "wind-down evaluated");
     core::mem::forget((st, open_rx, bind_rx, mux, r));
 }
+// ---- C08 decomposed: wind_down treats the table entries and the outbound queue independently
+// (drain().for_each / one queue), so one instance per ingredient; the combined scenario above
+// stays as a thorough instance.
+#[derive(Clone, Copy, PartialEq, Eq)]
+enum WdFlow {
+    None,
+    Established,
+    Requested,
+    BindRequested,
+}
+/// `end` is concrete per instance: `while let Some(Ok(m)) = next()` is not folded by the engine
+/// when the value is `Some(Err(_))` (DESIGN §3.8), and an unfolded loop explores
+/// `process_message` on a garbage frame once per unwinding.
+fn script_end(ep: &Endpoint, end: Step) {
+    let mut ws = ep.task.ws.lock();
+    ws.at_end = end;
+    ws.ready = if kani::any() { Step::Ok } else { Step::Err };
+    ws.close = if kani::any() { Step::Ok } else { Step::Err };
+}
+/// wind_down with ONE table entry of kind `k` (peer ended the connection: nothing is drained).
+fn f_c08_wd_flow(k: WdFlow, end: Step) {
+    use tokio::io::{AsyncBufRead, AsyncWrite};
+    let ep = endpoint(small_options(), KRng::fixed([1, 2, 3, 4]));
+    let d: [u8; 1] = kani::any();
+    let mut st = None;
+    let mut open_rx = None;
+    let mut bind_rx = None;
+    match k {
+        WdFlow::Established => {
+            st = Some(install_established(&ep, ID_A, kani::any()));
+            vassert!(queue_inbound(&ep, ID_A, &d), "P:C02 dispatch failed");
+        }
+        WdFlow::Requested => open_rx = Some(install_requested(&ep, ID_B)),
+        WdFlow::BindRequested => bind_rx = Some(install_bind_requested(&ep, ID_C)),
+        WdFlow::None => {}
+    }
+    script_end(&ep, end);
+    let Endpoint { mux, task, tx_msg_rx, dropped_flows_rx } = ep;
+    let r = now_or_never(task.wind_down(false, tx_msg_rx, dropped_flows_rx));
+    vassert!(r.is_some(), "P:C08 wind-down blocks although the transport ended");
+    vassert!(task.ws.lock().closed, "P:C08 the WebSocket was not closed at the end of the connection");
+    vassert!(task.ws.lock().sent_len == 0, "P:C08 frames were transmitted after the peer ended the connection");
+    vassert!(task.flows.read().len() == 0, "P:C08 flows survive the end of the connection");
+    let w = counting_waker();
+    let mut cx = Context::from_waker(&w);
+    if let Some(st) = st.as_mut() {
+        match Pin::new(&mut *st).poll_fill_buf(&mut cx) {
+            Poll::Ready(Ok(b)) => vassert!(b.len() == 1 && b[0] == d[0], "P:C08 data delivered before the end is not readable afterwards"),
+            _ => vfail!("P:C08 read after the end of the connection failed or blocked"),
+        }
+        Pin::new(&mut *st).consume(1);
+        match Pin::new(&mut *st).poll_fill_buf(&mut cx) {
+            Poll::Ready(Ok(b)) => vassert!(b.is_empty(), "P:C08 no end-of-stream after the end of the connection"),
+            _ => vfail!("P:C08 read blocks after the end of the connection"),
+        }
+        let x: [u8; 1] = kani::any();
+        match Pin::new(&mut *st).poll_write(&mut cx, &x) {
+            Poll::Ready(Err(e)) => vassert!(e.kind() == std::io::ErrorKind::BrokenPipe, "P:C08 write after the end failed with something other than BrokenPipe"),
+            _ => vfail!("P:C08 write after the end of the connection did not fail"),
+        }
+    }
+    if let Some(rx) = open_rx.as_mut() {
+        match rx.try_recv() {
+            Ok(None) => {}
+            _ => vfail!("P:C08 a pending stream request was not resolved at the end of the connection"),
+        }
+    }
+    if let Some(rx) = bind_rx.as_mut() {
+        match rx.try_recv() {
+            Ok(false) => {}
+            _ => vfail!("P:C08 a pending bind request was not answered negatively at the end of the connection"),
+        }
+    }
+    kani::cover!(true, "wind-down evaluated");
+    core::mem::forget((st, open_rx, bind_rx, mux, r, task));
+}
+h!(c08_wd_flow_none, 8, f_c08_wd_flow(WdFlow::None, Step::Ok));
+h!(c08_wd_flow_established, 8, f_c08_wd_flow(WdFlow::Established, Step::Ok));
+h!(c08_wd_flow_requested, 8, f_c08_wd_flow(WdFlow::Requested, Step::Ok));
+h!(c08_wd_flow_bind, 8, f_c08_wd_flow(WdFlow::BindRequested, Step::Ok));
+h!(c08_wd_flow_established_srcerr, 8, f_c08_wd_flow(WdFlow::Established, Step::Err));
+
+/// wind_down with an empty table and two frames queued before the end: transmitted in order
+/// before close iff this is a local drop and the sink works; never after the peer ended.
+fn f_c08_wd_queue(drain: bool, end: Step) {
+    let ep = endpoint(small_options(), KRng::fixed([1, 2, 3, 4]));
+    let p1 = leak2(kani::any());
+    let p2 = leak2(kani::any());
+    ep.task.tx_msg_tx.send(Message::Binary(Bytes::from_static(&p1[..]))).ok();
+    ep.task.tx_msg_tx.send(Message::Binary(Bytes::from_static(&p2[..]))).ok();
+    script_end(&ep, end);
+    let sink_ok = ep.task.ws.lock().ready == Step::Ok;
+    let Endpoint { mux, task, tx_msg_rx, dropped_flows_rx } = ep;
+    let r = now_or_never(task.wind_down(drain, tx_msg_rx, dropped_flows_rx));
+    vassert!(r.is_some(), "P:C08 wind-down blocks although the transport ended");
+    {
+        let ws = task.ws.lock();
+        vassert!(ws.closed, "P:C08 the WebSocket was not closed at the end of the connection");
+        if drain && sink_ok {
+            vassert!(ws.sent_len == 2, "P:C08 frames queued before the multiplexor was dropped were not all transmitted");
+            match (&ws.sent[0], &ws.sent[1]) {
+                (Some(Message::Binary(a)), Some(Message::Binary(b))) => {
+                    vassert!(a[0] == p1[0] && a[1] == p1[1] && b[0] == p2[0] && b[1] == p2[1], "P:C08 queued frames were transmitted out of order or modified");
+                }
+                _ => vfail!("P:C08 queued frames were replaced by something else"),
+            }
+        }
+        if !drain {
+            vassert!(ws.sent_len == 0, "P:C08 frames were transmitted after the peer ended the connection");
+        }
+        kani::cover!(ws.sent_len == 2, "?both queued frames transmitted");
+    }
+    kani::cover!(true, "wind-down evaluated");
+    core::mem::forget((mux, r, task));
+}
+h!(c08_wd_queue_local_drop, 8, f_c08_wd_queue(true, Step::Ok));
+h!(c08_wd_queue_peer_ended, 8, f_c08_wd_queue(false, Step::Ok));
+h!(c08_wd_queue_local_drop_srcerr, 8, f_c08_wd_queue(true, Step::Err));
+
+/// The connection ended for a reason other than a local drop (keepalive timeout, transport or
+/// protocol error, peer's Close) and the source stays silent for ever: wind_down must not wait
+/// for the peer - every pending operation still resolves.
+fn f_c08_wd_silent_source() {
+    use tokio::io::AsyncBufRead;
+    let ep = endpoint(small_options(), KRng::fixed([1, 2, 3, 4]));
+    let mut st = install_established(&ep, ID_A, kani::any());
+    let mut open_rx = install_requested(&ep, ID_B);
+    // ScriptWs default: at_end = Pending (silent), sink ready, close ok
+    let Endpoint { mux, task, tx_msg_rx, dropped_flows_rx } = ep;
+    let fut = task.wind_down(false, tx_msg_rx, dropped_flows_rx);
+    let mut fut = core::mem::ManuallyDrop::new(fut);
+    let mut done = false;
+    let mut k = 0;
+    while k < 3 && !done {
+        done = poll_once(unsafe { Pin::new_unchecked(&mut *fut) }).is_ready();
+        k += 1;
+    }
+    vassert!(done, "P:C08 after the connection failed the task keeps waiting for a silent peer: pending operations never resolve");
+    vassert!(task.flows.read().len() == 0, "P:C08 flows survive the end of the connection");
+    let w = counting_waker();
+    let mut cx = Context::from_waker(&w);
+    match Pin::new(&mut st).poll_fill_buf(&mut cx) {
+        Poll::Ready(Ok(b)) => vassert!(b.is_empty(), "P:C08 no end-of-stream after the end of the connection"),
+        _ => vfail!("P:C08 read blocks after the end of the connection"),
+    }
+    match open_rx.try_recv() {
+        Ok(None) => {}
+        _ => vfail!("P:C08 a pending stream request was not resolved at the end of the connection"),
+    }
+    kani::cover!(true, "silent source evaluated");
+    core::mem::forget((st, open_rx, mux));
+}
+h!(c08_wd_silent_source, 8, f_c08_wd_silent_source());
+
+/// After the task object is gone every API call reports Closed.
+fn f_c08_api_after_end() {
+    let ep = endpoint(small_options(), KRng::fixed([1, 2, 3, 4]));
+    let Endpoint { mux, task, tx_msg_rx, dropped_flows_rx } = ep;
+    core::mem::drop(tx_msg_rx);
+    core::mem::drop(dropped_flows_rx);
+    core::mem::drop(task);
+    match now_or_never(mux.accept_stream_channel()) {
+        Some(Err(Error::Closed)) => {}
+        _ => vfail!("P:C08 accept did not report Closed after the connection ended"),
+    }
+    match now_or_never(mux.get_datagram()) {
+        Some(Err(Error::Closed)) => {}
+        _ => vfail!("P:C08 get_datagram did not report Closed after the connection ended"),
+    }
+    match now_or_never(mux.new_stream_channel(b"h", 1)) {
+        Some(Err(Error::Closed)) => {}
+        _ => vfail!("P:C08 a later stream request did not report Closed"),
+    }
+    match now_or_never(mux.send_datagram(Datagram { flow_id: 1, target_host: Bytes::new(), target_port: 1, data: Bytes::new() })) {
+        Some(Err(Error::Closed)) => {}
+        _ => vfail!("P:C08 a later send_datagram did not report Closed"),
+    }
+    kani::cover!(true, "api after end evaluated");
+    core::mem::forget(mux);
+}
+h!(c08_api_after_end, 8, f_c08_api_after_end());
+
 h!(c08_wind_down_peer_ended, 8, f_c08_wind_down(false, false));
 h!(c08_wind_down_local_drop, 8, f_c08_wind_down(true, false));
 h!(c08_wind_down_peer_ended_inflight, 8, f_c08_wind_down(false, true));
